@@ -145,7 +145,7 @@ func (e *Env) gensimTexts(nGen int, thorough bool) []GText {
 		GText{"top-range", hdr + "S <- ([\\0x10FFF0-\\0x10FFFF] 'a' / [a-f] 'b' / [g-k]+ / [\\0x10FF00-\\0x10FFEF] / 'z')+ !.\n"},
 		GText{"boundaries", hdr + "S <- ([\\0x0-\\0x1] / [\\0x7E-\\0x80] 'x' / [\\0xFFFE-\\0x10001] 'y' / [\\0xD7FF-\\0xD7FF] / 'q' S)* T\nT <- [\\0x10FFFF-\\0x10FFFF] / 'a' / [b-c] T\n"},
 		GText{"imports", "package p\n\nimport \"fmt\"\nimport str \"strings\"\nimport \"os\"\nimport f \"fmt\"\nimport o2 \"os\"\nimport \"fmt\"\n\ntype T Peg {\n n int\n}\n\n# a header comment\nS <- <.> { fmt.Print(str.ToUpper(text)); f.Print(); _, _ = os.Args, o2.Args } S / !.\n"},
-		GText{"many-rules", manyRules(300)},
+		GText{"many-rules", manyRules(270)},
 		GText{"bad-action", hdr + "S <- 'a' { this is ( not go } T\nT <- 'b'\n"},
 		GText{"lr-mutual", hdr + "S <- A 'q' / C\nA <- C 'x'\nC <- A / 'z'\n"},
 		GText{"lr-indirect3", hdr + "S <- A\nA <- B 'a' / 'x'\nB <- C 'b' / 'y'\nC <- A 'c' / 'z'\n"},
@@ -184,7 +184,7 @@ func manyRules(n int) string {
 	sb.WriteString("package p\n\ntype T Peg {}\n\nS <- R0 !.\n")
 	for i := 0; i < n; i++ {
 		if i+1 < n {
-			fmt.Fprintf(&sb, "R%d <- 'a' R%d / 'b' R%d? / [c-e]\n", i, i+1, (i*7+3)%n)
+			fmt.Fprintf(&sb, "R%d <- 'a' R%d / 'b' R%d?\n", i, i+1, (i*7+3)%n)
 		} else {
 			fmt.Fprintf(&sb, "R%d <- 'z'\n", i)
 		}
